@@ -36,7 +36,8 @@ func CreateComment(remoteAddr string, uuserID bbs.UUserID, params interface{}, p
 		return nil, ErrInvalidParams
 	}
 
-	if theParams.CommentType > ptttype.COMMENT_TYPE_BASIC {
+	// only push / boo / arrow can be asked for: COMMENT_TYPE_UNKNOWN (0) has no type mark either.
+	if theParams.CommentType == ptttype.COMMENT_TYPE_UNKNOWN || theParams.CommentType > ptttype.COMMENT_TYPE_BASIC {
 		return nil, ErrInvalidParams
 	}
 
